@@ -1,102 +1,20 @@
-import JxlModel.Model.Modular.Tree
+import JxlModel.Proofs.TableCompile
 /-!
-# Flattened MA tree = the tree (for trees that do not compile to lookup tables)
+# Flattened MA tree = the tree
 
-`getLeaf (flatten …)` walks exactly to the leaf `Tree.evalFor` selects. The proof follows the
+`getLeaf (flatten …)` walks exactly to the leaf `Tree.evalFor` selects, including sub-trees compiled
+to lookup tables (`tryCompile_correct` in `Proofs/TableCompile.lean`). The proof follows the
 breadth-first construction with a ghost list `assigned` (the tree promised to every index).
 -/
 namespace Jxl.Modular
 
 variable (c s pc : Nat)
 
-/-- the property function the Spec evaluation uses: static properties substituted -/
-def specProps (props : Nat → Int) (k : Nat) : Int :=
-  if k == 0 then c else if k == 1 then s
-  else if k ≥ 16 ∧ (k - 16) / 4 ≥ pc then 0 else props k
-
-theorem evalFor_eq (props : Nat → Int) (t : Tree) :
-    t.evalFor c s pc props = t.eval (specProps c s pc props) := rfl
-
-/-- a decision that `next` resolves statically -/
-def isStatic (p : Nat) : Bool := p == 0 || p == 1 || (decide (p ≥ 16) && decide ((p - 16) / 4 ≥ pc))
-
-theorem specProps_nonstatic (props : Nat → Int) (p : Nat) (h : isStatic pc p = false) :
-    specProps c s pc props p = props p := by
-  unfold isStatic at h
-  simp only [Bool.or_eq_false_iff, Bool.and_eq_false_iff, beq_eq_false_iff_ne, decide_eq_false_iff_not] at h
-  obtain ⟨⟨h0, h1⟩, h2⟩ := h
-  unfold specProps
-  simp only [beq_iff_eq, h0, h1, if_false]
-  have : ¬ (p ≥ 16 ∧ (p - 16) / 4 ≥ pc) := by
-    intro ⟨a, b⟩; rcases h2 with h2 | h2 <;> contradiction
-  simp [this]
-
-theorem next_eval (props : Nat → Int) (t : Tree) :
-    (t.next c s pc).eval (specProps c s pc props) = t.eval (specProps c s pc props) := by
-  induction t with
-  | leaf l => rfl
-  | dec p v l r ihl ihr =>
-    unfold Tree.next
-    by_cases h0 : p = 0
-    · subst h0
-      simp only [beq_self_eq_true, if_true, Tree.eval, specProps]
-      by_cases hc : (c : Int) > v <;> simp [hc, ihl, ihr]
-    · by_cases h1 : p = 1
-      · subst h1
-        simp only [Tree.eval, specProps]
-        by_cases hc : (s : Int) > v <;> simp [hc, ihl, ihr]
-      · have e0 : (p == 0) = false := by simp [h0]
-        have e1 : (p == 1) = false := by simp [h1]
-        simp only [e0, e1]
-        by_cases h2 : p ≥ 16 ∧ (p - 16) / 4 ≥ pc
-        · simp only [h2, and_self, if_true, Tree.eval, specProps, e0, e1]
-          by_cases hv : v < 0
-          · simp [hv, ihl]
-          · have : ¬ ((0 : Int) > v) := by omega
-            simp [hv, ihr, this]
-        · simp [h2]
-
-/-- `next` never returns a statically decidable decision -/
-theorem next_nonstatic (t : Tree) (p : Nat) (v : Int) (l r : Tree)
-    (h : t.next c s pc = .dec p v l r) : isStatic pc p = false := by
-  induction t with
-  | leaf l0 => simp [Tree.next] at h
-  | dec p0 v0 l0 r0 ihl ihr =>
-    unfold Tree.next at h
-    by_cases h0 : p0 = 0
-    · subst h0
-      simp only [beq_self_eq_true, if_true] at h
-      by_cases hc : (c : Int) > v0
-      · simp [hc] at h; exact ihl h
-      · simp [hc] at h; exact ihr h
-    · by_cases h1 : p0 = 1
-      · subst h1
-        simp at h
-        by_cases hc : (s : Int) > v0
-        · simp [hc] at h; exact ihl h
-        · simp [hc] at h; exact ihr h
-      · have e0 : (p0 == 0) = false := by simp [h0]
-        have e1 : (p0 == 1) = false := by simp [h1]
-        simp only [e0, e1] at h
-        by_cases h2 : p0 ≥ 16 ∧ (p0 - 16) / 4 ≥ pc
-        · simp only [h2, and_self, if_true] at h
-          by_cases hv : v0 < 0
-          · simp [hv] at h; exact ihl h
-          · simp [hv] at h; exact ihr h
-        · simp [h2] at h
-          obtain ⟨rfl, _, _, _⟩ := h
-          unfold isStatic
-          simp only [e0, e1, Bool.false_or, Bool.and_eq_false_iff, decide_eq_false_iff_not]
-          by_cases h16 : p0 ≥ 16
-          · right; intro hh; exact h2 ⟨h16, hh⟩
-          · left; exact h16
-
 /-! ## invariant of the breadth-first construction -/
-
-def E (props : Nat → Int) (t : Tree) : Leaf := t.eval (specProps c s pc props)
 
 def fusedTarget (props : Nat → Int) (p0 : Nat) (v0 : Int) (pl pr : Nat) (vl vr : Int) (base : Nat) : Nat :=
   base + (if props p0 ≤ v0 then 2 + (if props pr ≤ vr then 1 else 0) else (if props pl ≤ vl then 1 else 0))
+
 
 /-- node `i` of the flat array does what the tree assigned to index `i` does -/
 def Good (props : Nat → Int) (assigned : List Tree) (i : Nat) : FlatNode → Prop
@@ -105,11 +23,10 @@ def Good (props : Nat → Int) (assigned : List Tree) (i : Nat) : FlatNode → P
     let k := fusedTarget props p0 v0 pl pr vl vr base
     i < k ∧ k < assigned.length ∧
       E c s pc props (assigned.getD k default) = E c s pc props (assigned.getD i default)
-  | .table _ _ _ => False
-
-theorem getD_append_left {α} (a b : List α) (d : α) (i : Nat) (h : i < a.length) :
-    (a ++ b).getD i d = a.getD i d := by
-  simp [List.getD, List.getElem?_append_left h]
+  | .table prop vb ind =>
+    let k := ind.getD (tblIdx (props prop) vb ind.size) 0
+    i < k ∧ k < assigned.length ∧
+      E c s pc props (assigned.getD k default) = E c s pc props (assigned.getD i default)
 
 theorem Good_mono (props : Nat → Int) (a a' : List Tree) (ext : List Tree) (ha : a' = a ++ ext)
     (i : Nat) (hi : i < a.length) (n : FlatNode) (h : Good c s pc props a i n) :
@@ -124,7 +41,11 @@ theorem Good_mono (props : Nat → Int) (a a' : List Tree) (ext : List Tree) (ha
     obtain ⟨h1, h2, h3⟩ := h
     refine ⟨h1, by simp; omega, ?_⟩
     rw [getD_append_left _ _ _ _ hi, getD_append_left _ _ _ _ h2]; exact h3
-  | table _ _ _ => exact h
+  | table prop vb ind =>
+    simp only [Good] at *
+    obtain ⟨h1, h2, h3⟩ := h
+    refine ⟨h1, by rw [List.length_append]; omega, ?_⟩
+    rw [getD_append_left _ _ _ _ hi, getD_append_left _ _ _ _ h2]; exact h3
 
 /-- the walker reaches the Spec leaf from every index of a completed array -/
 theorem walk_correct (props : Nat → Int) (nodes : Array FlatNode) (assigned : List Tree)
@@ -144,7 +65,12 @@ theorem walk_correct (props : Nat → Int) (nodes : Array FlatNode) (assigned : 
     generalize nodes[i] = node at hg
     cases node with
     | leaf l => simp only [Good] at hg; rw [hg]
-    | table _ _ _ => exact absurd hg (by simp [Good])
+    | table prop vb ind =>
+      simp only [Good] at hg
+      obtain ⟨g1, g2, g3⟩ := hg
+      have key := ih (ind.getD (tblIdx (props prop) vb ind.size) 0) (by omega) (by omega)
+      rw [g3] at key
+      exact key
     | fused p0 v0 pl pr vl vr base =>
       simp only [Good] at hg
       obtain ⟨g1, g2, g3⟩ := hg
@@ -154,107 +80,21 @@ theorem walk_correct (props : Nat → Int) (nodes : Array FlatNode) (assigned : 
           else (if props pl ≤ vl then 1 else 0))) = _
       exact key
 
+
 /-! ## the construction loop -/
-
-def AllSub (P : Tree → Prop) : Tree → Prop
-  | .leaf l => P (.leaf l)
-  | .dec p v l r => P (.dec p v l r) ∧ AllSub P l ∧ AllSub P r
-
-theorem AllSub_self (P : Tree → Prop) (t : Tree) (h : AllSub P t) : P t := by
-  cases t with
-  | leaf l => exact h
-  | dec p v l r => exact h.1
-
-theorem AllSub_next (P : Tree → Prop) (t : Tree) (h : AllSub P t) : AllSub P (t.next c s pc) := by
-  induction t with
-  | leaf l => exact h
-  | dec p v l r ihl ihr =>
-    obtain ⟨h0, hl, hr⟩ := h
-    unfold Tree.next
-    split
-    · split
-      · exact ihl hl
-      · exact ihr hr
-    · split
-      · split
-        · exact ihl hl
-        · exact ihr hr
-      · split
-        · split
-          · exact ihl hl
-          · exact ihr hr
-        · exact ⟨h0, hl, hr⟩
 
 /-- the node never compiles to a lookup table -/
 def NoTab (t : Tree) : Prop := ∀ nb, tryCompile c s pc t nb = none
 
-def wt (t : Tree) : Nat := 2 * t.size - 1
-def wts (q : List Tree) : Nat := (q.map wt).sum
+/-- the decision value at the root fits `i32` -/
+def RootOK : Tree → Prop
+  | .dec _ v _ _ => i32Min ≤ v ∧ v ≤ i32Max
+  | .leaf _ => True
 
-theorem size_pos (t : Tree) : 1 ≤ t.size := by cases t <;> simp [Tree.size] <;> omega
-
-theorem next_size_le (t : Tree) : (t.next c s pc).size ≤ t.size := by
-  induction t with
-  | leaf l => simp [Tree.next]
-  | dec p v l r ihl ihr =>
-    unfold Tree.next
-    simp only [Tree.size]
-    split
-    · split <;> omega
-    · split
-      · split <;> omega
-      · split
-        · split <;> omega
-        · simp [Tree.size]
-
-/-- children of a (non-static) subtree root, as the flattener enqueues them -/
-def kids (t : Tree) : Nat × Int × Tree × Tree :=
-  match t with
-  | .dec p v a b => (p, v, a, b)
-  | n => (0, 0, n, n)
-
-theorem kids_wt (t : Tree) : wt (kids t).2.2.1 + wt (kids t).2.2.2 ≤ 2 * t.size := by
-  cases t with
-  | leaf l => simp [kids, wt, Tree.size]
-  | dec p v a b =>
-    have := size_pos a; have := size_pos b
-    simp [kids, wt, Tree.size]; omega
-
-theorem wt_pos (t : Tree) : 1 ≤ wt t := by have := size_pos t; unfold wt; omega
-
-theorem wts_cons (t : Tree) (q : List Tree) : wts (t :: q) = wt t + wts q := by simp [wts]
-theorem wts_append (a b : List Tree) : wts (a ++ b) = wts a + wts b := by simp [wts]
-
-theorem drop_cons_of_eq {α} (l : List α) (n : Nat) (x : α) (xs : List α) (h : x :: xs = l.drop n) :
-    n < l.length ∧ l.getD n x = x ∧ xs = l.drop (n + 1) := by
-  have hlt : n < l.length := by
-    by_cases hh : n < l.length
-    · exact hh
-    · have : l.drop n = [] := List.drop_eq_nil_of_le (by omega)
-      rw [this] at h; simp at h
-  refine ⟨hlt, ?_, ?_⟩
-  · have : l.drop n = l[n] :: l.drop (n + 1) := (List.drop_eq_getElem_cons hlt)
-    rw [this] at h
-    have := (List.cons.inj h).1
-    simp [List.getD, hlt, this]
-  · have : l.drop n = l[n] :: l.drop (n + 1) := (List.drop_eq_getElem_cons hlt)
-    rw [this] at h
-    exact (List.cons.inj h).2
-
-/-- evaluation at a non-static decision root, in terms of the enqueued children -/
-theorem E_kids (props : Nat → Int) (u : Tree) (hns : ∀ p v a b, u = .dec p v a b → isStatic pc p = false) :
-    E c s pc props u =
-      (if props (kids u).1 ≤ (kids u).2.1 then E c s pc props (kids u).2.2.2 else E c s pc props (kids u).2.2.1) := by
-  cases u with
-  | leaf l => simp only [kids, E]; exact (ite_self _).symm
-  | dec p v a b =>
-    have hp := hns p v a b rfl
-    simp only [kids, E, Tree.eval, specProps_nonstatic c s pc props p hp]
-    by_cases h : props p > v
-    · have : ¬ (props p ≤ v) := by omega
-      simp [h, this]
-    · have : props p ≤ v := by omega
-      simp [h, this]
+/-- what the flattening needs of a (sub-)tree: if it compiles to a lookup table then its root value
+and the property values are in the `i32` range -/
+def TabSafe (props : Nat → Int) (t : Tree) : Prop :=
+  NoTab c s pc t ∨ (RootOK t ∧ ∀ p, i32Min ≤ props p ∧ props p ≤ i32Max)
 
 /-- one fused emission, with the children written through `kids` -/
 theorem flattenLoop_dec (fuel : Nat) (t : Tree) (q : List Tree) (out : Array FlatNode) (nb : Nat)
@@ -276,17 +116,24 @@ theorem flattenLoop_leaf (fuel : Nat) (t : Tree) (q : List Tree) (out : Array Fl
   rw [flattenLoop]
   simp only [ht, tryCompile]
 
-theorem AllSub_kids (P : Tree → Prop) (u : Tree) (h : AllSub P u) :
-    AllSub P (kids u).2.2.1 ∧ AllSub P (kids u).2.2.2 := by
-  cases u with
-  | leaf l => exact ⟨h, h⟩
-  | dec p v a b => exact ⟨h.2.1, h.2.2⟩
+
+theorem flattenLoop_table (fuel : Nat) (t : Tree) (q : List Tree) (out : Array FlatNode) (nb : Nat)
+    (t' : Tree) (node : FlatNode) (nodes : List Tree) (ht : t.next c s pc = t')
+    (hc : tryCompile c s pc t' nb = some (node, nodes)) :
+    flattenLoop c s pc (fuel + 1) (t :: q) out nb =
+      flattenLoop c s pc fuel (q ++ nodes) (out.push node) (nb + nodes.length) := by
+  rw [flattenLoop]
+  simp only [ht, hc]
+
+theorem getD_append_right' {α} (a b : List α) (d : α) (i : Nat) :
+    (a ++ b).getD (a.length + i) d = b.getD i d := by
+  simp [List.getD, List.getElem?_append_right]
 
 theorem flattenLoop_inv (props : Nat → Int) :
     ∀ (fuel : Nat) (q : List Tree) (out : Array FlatNode) (assigned : List Tree),
       q = assigned.drop out.size → out.size ≤ assigned.length →
       (∀ i (h : i < out.size), Good c s pc props assigned i out[i]) →
-      wts q ≤ fuel → (∀ t ∈ q, AllSub (NoTab c s pc) t) →
+      wts q ≤ fuel → (∀ t ∈ q, AllSub (TabSafe c s pc props) t) →
       ∃ ext, (flattenLoop c s pc fuel q out assigned.length).size = (assigned ++ ext).length ∧
         ∀ i (h : i < (flattenLoop c s pc fuel q out assigned.length).size),
           Good c s pc props (assigned ++ ext) i (flattenLoop c s pc fuel q out assigned.length)[i] := by
@@ -340,108 +187,156 @@ theorem flattenLoop_inv (props : Nat → Int) :
         exact this
       | dec p v l r =>
         rw [hn] at hsubn hEt
-        have hno : tryCompile c s pc (.dec p v l r) assigned.length = none :=
-          (AllSub_self _ _ hsubn) assigned.length
-        rw [flattenLoop_dec c s pc fuel t q' out assigned.length p v l r hn hno]
         have hp : isStatic pc p = false := next_nonstatic c s pc t p v l r hn
-        let ln := l.next c s pc
-        let rn := r.next c s pc
-        let ch : List Tree := [(kids ln).2.2.1, (kids ln).2.2.2, (kids rn).2.2.1, (kids rn).2.2.2]
-        have hln : AllSub (NoTab c s pc) ln := AllSub_next c s pc _ l hsubn.2.1
-        have hrn : AllSub (NoTab c s pc) rn := AllSub_next c s pc _ r hsubn.2.2
-        have hlk := AllSub_kids _ ln hln
-        have hrk := AllSub_kids _ rn hrn
         have hd : assigned.getD out.size default = t := by
           simp only [List.getD] at hget ⊢
           simp [List.getElem?_eq_getElem hlt] at hget ⊢
           exact hget
-        have hwt : wts ch + 1 ≤ wt t := by
-          have h1 := kids_wt ln
-          have h2 := kids_wt rn
-          have h3 : ln.size ≤ l.size := next_size_le c s pc l
-          have h4 : rn.size ≤ r.size := next_size_le c s pc r
-          have h5 := next_size_le c s pc t
-          rw [hn] at h5
-          simp only [Tree.size] at h5
-          have e : wts ch = wt (kids ln).2.2.1 + wt (kids ln).2.2.2 + (wt (kids rn).2.2.1 + wt (kids rn).2.2.2) := by
-            simp [wts, ch]; omega
-          have hs := size_pos t
-          simp only [wt] at *
-          omega
-        have hres := ih (q' ++ ch) (out.push (.fused p v (kids ln).1 (kids rn).1 (kids ln).2.1 (kids rn).2.1 assigned.length))
-          (assigned ++ ch)
-          (by simp [hq', List.drop_append_of_le_length (show out.size + 1 ≤ assigned.length by omega)])
-          (by simp; omega)
-          (by
-            intro i h
-            simp only [Array.size_push] at h
-            by_cases hi : i < out.size
-            · rw [Array.getElem_push_lt hi]
-              exact Good_mono c s pc props assigned _ ch rfl i (by omega) _ (hgood i hi)
-            · have : i = out.size := by omega
-              subst this
-              simp only [Array.getElem_push_eq, Good]
-              have hEi : E c s pc props ((assigned ++ ch).getD out.size default) = E c s pc props (.dec p v l r) := by
-                rw [getD_append_left _ _ _ _ hlt, hd, ← hEt]
-              rw [hEi]
-              have hdec : E c s pc props (.dec p v l r) =
-                  (if props p ≤ v then E c s pc props rn else E c s pc props ln) := by
-                have := E_kids c s pc props (.dec p v l r) (by
-                  intro p' v' a b he; cases he; exact hp)
-                simp only [kids] at this
-                rw [this]
-                have e1 : E c s pc props rn = E c s pc props r := next_eval c s pc props r
-                have e2 : E c s pc props ln = E c s pc props l := next_eval c s pc props l
-                by_cases hpv : props p ≤ v <;> simp [hpv, e1, e2]
-              have hkl := E_kids c s pc props ln (fun p' v' a b he => next_nonstatic c s pc l p' v' a b he)
-              have hkr := E_kids c s pc props rn (fun p' v' a b he => next_nonstatic c s pc r p' v' a b he)
-              have getk : ∀ j (hj : j < 4), (assigned ++ ch).getD (assigned.length + j) default = ch.getD j default := by
-                intro j hj
-                simp only [List.getD]
-                rw [List.getElem?_append_right (by omega)]
-                simp
-              unfold fusedTarget
-              by_cases h0 : props p ≤ v
-              · by_cases h1 : props (kids rn).1 ≤ (kids rn).2.1
-                · simp only [h0, h1, if_true]
-                  refine ⟨by omega, by simp [ch], ?_⟩
-                  rw [show assigned.length + (2 + 1) = assigned.length + 3 from rfl, getk 3 (by omega), hdec, hkr]
-                  simp [h0, h1, ch]
-                · simp only [h0, h1, if_true, if_false]
-                  refine ⟨by omega, by simp [ch], ?_⟩
-                  rw [show assigned.length + (2 + 0) = assigned.length + 2 from rfl, getk 2 (by omega), hdec, hkr]
-                  simp [h0, h1, ch]
-              · by_cases h1 : props (kids ln).1 ≤ (kids ln).2.1
-                · simp only [h0, h1, if_true, if_false]
-                  refine ⟨by omega, by simp [ch], ?_⟩
-                  rw [getk 1 (by omega), hdec, hkl]
-                  simp [h0, h1, ch]
-                · simp only [h0, h1, if_false]
-                  refine ⟨by omega, by simp [ch], ?_⟩
-                  rw [show assigned.length + 0 = assigned.length + 0 from rfl, getk 0 (by omega), hdec, hkl]
-                  simp [h0, h1, ch])
-          (by rw [wts_append]; omega)
-          (by
-            intro u hu
-            rcases List.mem_append.mp hu with h | h
-            · exact hnt u (by simp [h])
-            · simp only [ch, List.mem_cons, List.mem_nil_iff, or_false] at h
-              rcases h with rfl | rfl | rfl | rfl
-              · exact hlk.1
-              · exact hlk.2
-              · exact hrk.1
-              · exact hrk.2)
-        obtain ⟨ext, he1, he2⟩ := hres
-        have hlen4 : (assigned ++ ch).length = assigned.length + 4 := by simp [ch]
-        rw [hlen4] at he1 he2
-        refine ⟨ch ++ ext, ?_, ?_⟩
-        · rw [← List.append_assoc]; exact he1
-        · intro i h; rw [← List.append_assoc]; exact he2 i h
+        cases hc : tryCompile c s pc (.dec p v l r) assigned.length with
+        | some pr =>
+          obtain ⟨node, nodes⟩ := pr
+          have hok : RootOK (.dec p v l r) ∧ ∀ q, i32Min ≤ props q ∧ props q ≤ i32Max := by
+            rcases AllSub_self _ _ hsubn with hnt | hok
+            · rw [hnt assigned.length] at hc; exact absurd hc (by simp)
+            · exact hok
+          obtain ⟨vb, ind, k, e1, e2, e3, e4, e5, e6⟩ :=
+            tryCompile_correct c s pc props (TabSafe c s pc props) p v l r assigned.length node nodes
+              hp hok.1.1 hok.1.2 (hok.2 p).1 (hok.2 p).2 hsubn hc
+          rw [flattenLoop_table c s pc fuel t q' out assigned.length _ node nodes hn hc]
+          have hwt := wt_next_le c s pc t
+          rw [hn] at hwt
+          have hres := ih (q' ++ nodes) (out.push node) (assigned ++ nodes)
+            (by simp [hq', List.drop_append_of_le_length (show out.size + 1 ≤ assigned.length by omega)])
+            (by simp; omega)
+            (by
+              intro i h
+              simp only [Array.size_push] at h
+              by_cases hi : i < out.size
+              · rw [Array.getElem_push_lt hi]
+                exact Good_mono c s pc props assigned _ nodes rfl i (by omega) _ (hgood i hi)
+              · have : i = out.size := by omega
+                subst this
+                simp only [Array.getElem_push_eq]
+                subst e1
+                simp only [Good]
+                rw [e2]
+                refine ⟨by omega, by rw [List.length_append]; omega, ?_⟩
+                rw [getD_append_right', getD_append_left _ _ _ _ hlt, hd, e4, ← hEt])
+            (by rw [wts_append]; omega)
+            (by
+              intro u hu
+              rcases List.mem_append.mp hu with h | h
+              · exact hnt u (by simp [h])
+              · exact e5 u h)
+          obtain ⟨ext, he1, he2⟩ := hres
+          rw [List.length_append] at he1 he2
+          refine ⟨nodes ++ ext, ?_, ?_⟩
+          · rw [← List.append_assoc]; exact he1
+          · intro i h; rw [← List.append_assoc]; exact he2 i h
+        | none =>
+          have hno := hc
+          rw [flattenLoop_dec c s pc fuel t q' out assigned.length p v l r hn hno]
+          have hp : isStatic pc p = false := next_nonstatic c s pc t p v l r hn
+          let ln := l.next c s pc
+          let rn := r.next c s pc
+          let ch : List Tree := [(kids ln).2.2.1, (kids ln).2.2.2, (kids rn).2.2.1, (kids rn).2.2.2]
+          have hln : AllSub (TabSafe c s pc props) ln := AllSub_next c s pc _ l hsubn.2.1
+          have hrn : AllSub (TabSafe c s pc props) rn := AllSub_next c s pc _ r hsubn.2.2
+          have hlk := AllSub_kids _ ln hln
+          have hrk := AllSub_kids _ rn hrn
+          have hd : assigned.getD out.size default = t := by
+            simp only [List.getD] at hget ⊢
+            simp [List.getElem?_eq_getElem hlt] at hget ⊢
+            exact hget
+          have hwt : wts ch + 1 ≤ wt t := by
+            have h1 := kids_wt ln
+            have h2 := kids_wt rn
+            have h3 : ln.size ≤ l.size := next_size_le c s pc l
+            have h4 : rn.size ≤ r.size := next_size_le c s pc r
+            have h5 := next_size_le c s pc t
+            rw [hn] at h5
+            simp only [Tree.size] at h5
+            have e : wts ch = wt (kids ln).2.2.1 + wt (kids ln).2.2.2 + (wt (kids rn).2.2.1 + wt (kids rn).2.2.2) := by
+              simp [wts, ch]; omega
+            have hs := size_pos t
+            simp only [wt] at *
+            omega
+          have hres := ih (q' ++ ch) (out.push (.fused p v (kids ln).1 (kids rn).1 (kids ln).2.1 (kids rn).2.1 assigned.length))
+            (assigned ++ ch)
+            (by simp [hq', List.drop_append_of_le_length (show out.size + 1 ≤ assigned.length by omega)])
+            (by simp; omega)
+            (by
+              intro i h
+              simp only [Array.size_push] at h
+              by_cases hi : i < out.size
+              · rw [Array.getElem_push_lt hi]
+                exact Good_mono c s pc props assigned _ ch rfl i (by omega) _ (hgood i hi)
+              · have : i = out.size := by omega
+                subst this
+                simp only [Array.getElem_push_eq, Good]
+                have hEi : E c s pc props ((assigned ++ ch).getD out.size default) = E c s pc props (.dec p v l r) := by
+                  rw [getD_append_left _ _ _ _ hlt, hd, ← hEt]
+                rw [hEi]
+                have hdec : E c s pc props (.dec p v l r) =
+                    (if props p ≤ v then E c s pc props rn else E c s pc props ln) := by
+                  have := E_kids c s pc props (.dec p v l r) (by
+                    intro p' v' a b he; cases he; exact hp)
+                  simp only [kids] at this
+                  rw [this]
+                  have e1 : E c s pc props rn = E c s pc props r := next_eval c s pc props r
+                  have e2 : E c s pc props ln = E c s pc props l := next_eval c s pc props l
+                  by_cases hpv : props p ≤ v <;> simp [hpv, e1, e2]
+                have hkl := E_kids c s pc props ln (fun p' v' a b he => next_nonstatic c s pc l p' v' a b he)
+                have hkr := E_kids c s pc props rn (fun p' v' a b he => next_nonstatic c s pc r p' v' a b he)
+                have getk : ∀ j (hj : j < 4), (assigned ++ ch).getD (assigned.length + j) default = ch.getD j default := by
+                  intro j hj
+                  simp only [List.getD]
+                  rw [List.getElem?_append_right (by omega)]
+                  simp
+                unfold fusedTarget
+                by_cases h0 : props p ≤ v
+                · by_cases h1 : props (kids rn).1 ≤ (kids rn).2.1
+                  · simp only [h0, h1, if_true]
+                    refine ⟨by omega, by simp [ch], ?_⟩
+                    rw [show assigned.length + (2 + 1) = assigned.length + 3 from rfl, getk 3 (by omega), hdec, hkr]
+                    simp [h0, h1, ch]
+                  · simp only [h0, h1, if_true, if_false]
+                    refine ⟨by omega, by simp [ch], ?_⟩
+                    rw [show assigned.length + (2 + 0) = assigned.length + 2 from rfl, getk 2 (by omega), hdec, hkr]
+                    simp [h0, h1, ch]
+                · by_cases h1 : props (kids ln).1 ≤ (kids ln).2.1
+                  · simp only [h0, h1, if_true, if_false]
+                    refine ⟨by omega, by simp [ch], ?_⟩
+                    rw [getk 1 (by omega), hdec, hkl]
+                    simp [h0, h1, ch]
+                  · simp only [h0, h1, if_false]
+                    refine ⟨by omega, by simp [ch], ?_⟩
+                    rw [show assigned.length + 0 = assigned.length + 0 from rfl, getk 0 (by omega), hdec, hkl]
+                    simp [h0, h1, ch])
+            (by rw [wts_append]; omega)
+            (by
+              intro u hu
+              rcases List.mem_append.mp hu with h | h
+              · exact hnt u (by simp [h])
+              · simp only [ch, List.mem_cons, List.mem_nil_iff, or_false] at h
+                rcases h with rfl | rfl | rfl | rfl
+                · exact hlk.1
+                · exact hlk.2
+                · exact hrk.1
+                · exact hrk.2)
+          obtain ⟨ext, he1, he2⟩ := hres
+          have hlen4 : (assigned ++ ch).length = assigned.length + 4 := by simp [ch]
+          rw [hlen4] at he1 he2
+          refine ⟨ch ++ ext, ?_, ?_⟩
+          · rw [← List.append_assoc]; exact he1
+          · intro i h; rw [← List.append_assoc]; exact he2 i h
 
-/-- **Flattened tree = tree**, for every tree none of whose subtrees compiles to a lookup table,
-every channel / stream / number of previous channels and every property vector. -/
+
+/-- **Flattened tree = tree**, for every tree all of whose subtrees are `TabSafe` (compile to no
+lookup table, or have a root value in `[i32Min, i32Max]` while the property values fit `i32`),
+every channel / stream / number of previous channels. -/
 theorem flatten_getLeaf_eq_evalFor (t : Tree) (props : Nat → Int)
-    (hnt : AllSub (NoTab c s pc) t) :
+    (hnt : AllSub (TabSafe c s pc props) t) :
     getLeaf (flatten c s pc t) props = some (t.evalFor c s pc props) := by
   have hsub := AllSub_next c s pc _ t hnt
   obtain ⟨ext, h1, h2⟩ := flattenLoop_inv c s pc props (4 * t.size + 4) [t.next c s pc] #[] [t.next c s pc]
@@ -489,5 +384,29 @@ theorem noTabB_sound (t : Tree) (h : noTabB c s pc t = true) : AllSub (NoTab c s
     have := tryCompile_isNone_indep c s pc (.dec p v l r) nb
     rw [h.1.1] at this
     exact Option.isNone_iff_eq_none.mp this
+theorem AllSub_imp (P Q : Tree → Prop) (hPQ : ∀ t, P t → Q t) (t : Tree) (h : AllSub P t) : AllSub Q t := by
+  induction t with
+  | leaf l => exact hPQ _ h
+  | dec p v l r ihl ihr => exact ⟨hPQ _ h.1, ihl h.2.1, ihr h.2.2⟩
+
+/-- every decision value of the tree fits `i32` (what the Rust type of `value` guarantees) -/
+def Tree.valuesInI32 : Tree → Bool
+  | .leaf _ => true
+  | .dec _ v l r => decide (i32Min ≤ v) && decide (v ≤ i32Max) && l.valuesInI32 && r.valuesInI32
+
+theorem valuesInI32_sound (t : Tree) (h : t.valuesInI32 = true) : AllSub RootOK t := by
+  induction t with
+  | leaf l => exact True.intro
+  | dec p v l r ihl ihr =>
+    simp only [Tree.valuesInI32, Bool.and_eq_true, decide_eq_true_eq] at h
+    exact ⟨⟨h.1.1.1, h.1.1.2⟩, ihl h.1.2, ihr h.2⟩
+
+/-- **Flattened tree = tree, lookup tables included**: property values and decision values in the
+`i32` range. -/
+theorem flatten_getLeaf_eq_evalFor_full (t : Tree) (props : Nat → Int)
+    (hp : ∀ p, i32Min ≤ props p ∧ props p ≤ i32Max) (hv : t.valuesInI32 = true) :
+    getLeaf (flatten c s pc t) props = some (t.evalFor c s pc props) :=
+  flatten_getLeaf_eq_evalFor c s pc t props
+    (AllSub_imp _ _ (fun _ h => Or.inr ⟨h, hp⟩) t (valuesInI32_sound t hv))
 
 end Jxl.Modular
